@@ -267,7 +267,10 @@ int lha_input_stream_skip(LHAInputStream *stream, size_t bytes)
 
 			result = do_read(stream, data, len);
 
-			if (result < 0) {
+			// A read of zero bytes means that the end of the
+			// input was reached before the skip completed.
+
+			if (result <= 0) {
 				return 0;
 			}
 
